@@ -6,7 +6,6 @@ package zzverif
 // native replay runs the real library, which is what validates these models against it.
 
 import (
-	"bytes"
 	"errors"
 	"html/template"
 	"io"
@@ -142,9 +141,6 @@ func VerifModel_ioutil_ReadAll(r io.Reader) ([]byte, error) {
 
 func VerifModel_io_ReadAll(r io.Reader) ([]byte, error) { return VerifModel_ioutil_ReadAll(r) }
 
-func VerifModel_bytes_NewBufferString(s string) *bytes.Buffer { return nil }
-func VerifModel_bytes_NewBuffer(b []byte) *bytes.Buffer       { return nil }
-func VerifModel_bytes_NewReader(b []byte) *bytes.Reader       { return nil }
 
 // ---- net/url ----
 
